@@ -22,6 +22,7 @@
 import RSVerif.Proofs.Roundtrip
 import RSVerif.Proofs.LocatorSpec
 import RSVerif.Proofs.RestoredBasic
+import RSVerif.Proofs.FlatEndToEnd
 
 namespace RS
 
@@ -120,5 +121,21 @@ theorem roundtrip (staleE staleD : Stale) (kindE kindD : Kind) (schedE schedD : 
 example : ∃ e0 d0, Encoder.new (fun L _ => Vector.replicate L 0#16) .high .naive 2 1 2 none = .ok e0 ∧
     Decoder.new (fun L _ => Vector.replicate L 0#16) .high .twoLayer 2 1 2 none = .ok d0 ∧
     chooseRate .high 2 1 = .ok .high := ⟨_, _, rfl, rfl, rfl⟩
+
+/-- the decoders on the REAL flat memory (`HighRateDecoder::decode` / `LowRateDecoder::decode` after
+    `decode_begin`, transliterated on `Vec<[u8; 64]>` with the code's views and byte kernels) never panic
+    and are, symbol lane by symbol lane, the lane-model decoders to which `decode_high_restores`,
+    `decode_low_restores` and `roundtrip` above apply -/
+theorem flat_decoders_are_lane_decoders (s : Sched) (lw : Array Nat) (f : Flat) (k r : Nat)
+    (recv : Nat → Bool) (hwf : f.WF) (hn : 0 < f.len64) :
+    (supportsHigh k r = true → f.count = highDecWorkCount k r →
+      ∃ f', flatDecodeHigh s lw f k r recv = some f' ∧ f'.WF ∧
+        (f'.absAt f.len64).map (bvecLanes f.len64)
+          = decodeHigh s lw k r recv (f.absV.map (bvecLanes f.len64))) ∧
+    (supportsLow k r = true → f.count = lowDecWorkCount k r →
+      ∃ f', flatDecodeLow s lw f k r recv = some f' ∧ f'.WF ∧
+        (f'.absAt f.len64).map (bvecLanes f.len64)
+          = decodeLow s lw k r recv (f.absV.map (bvecLanes f.len64))) :=
+  flatDecode_lanes s lw f k r recv hwf hn
 
 end RS
